@@ -1388,7 +1388,7 @@ def run_trees(ctx):
     # own generator (seeded from property + VERIF_SEED + stream name): the streams that existed before keep their draws
     rng = random.Random(f"{ctx.prop}-{ctx.seed}-trees")
     third = grids.HexGrid.fromPitch(16.0, numRings=3, symmetry="third periodic")
-    for idx in range(ctx.pick(4, 60)):
+    for idx in range(ctx.pick(4, 24)):
         nb = rng.randint(2, 5)
         try:
             with common.quiet():
@@ -1543,7 +1543,7 @@ def run_adjust(ctx):
 
     rng = random.Random(f"{ctx.prop}-{ctx.seed}-adjust")
     third = grids.HexGrid.fromPitch(16.0, numRings=3, symmetry="third periodic")
-    for idx in range(ctx.pick(3, 40)):
+    for idx in range(ctx.pick(3, 20)):
         try:
             with common.quiet():
                 a = gen_assembly(rng, 900 + idx, third if rng.random() < 0.4 else None)
